@@ -173,6 +173,8 @@ func fsRequests(quick bool) []harness.Req {
 		for _, b := range []string{"x", "yy", ""} {
 			out = append(out, harness.Req{Method: "PUT", Path: p, Body: b})
 		}
+		// the same upload with its length not announced (chunked transfer)
+		out = append(out, harness.Req{Method: "PUT", Path: p, Body: "yy", Chunked: true})
 		for _, d := range []string{"-", "0", "1", "infinity", "2", "-1", "01", "+1"} {
 			for _, b := range []string{"", pfAllprop, pfPropname, pfProp, pfNone} {
 				if len(d) > 1 && d != "infinity" && b != "" && b != pfAllprop {
